@@ -460,6 +460,36 @@ def _r_window(f, a):
     return [(k, w) for k, w in f.iter_window_items(size=a['size'], axis=a['axis'])]
 
 
+def _d_window_array(spec, rng):
+    return {'size': rng.randint(1, 3), 'axis': rng.randint(0, 1), 'step': rng.choice([1, 1, 2]), 'items': rng.random() < 0.5}
+
+
+def _r_window_array(f, a):
+    if a['items']:
+        return [(k, w) for k, w in f.iter_window_array_items(size=a['size'], axis=a['axis'], step=a['step'])]
+    return list(f.iter_window_array(size=a['size'], axis=a['axis'], step=a['step']))
+
+
+def _d_shift_labels(spec, rng):
+    nr, nc = spec.shape
+    if nc < 2 or not nr or spec.col_kind.startswith('hier'):
+        return None
+    k = rng.randint(2, min(3, nc))
+    return {'cols': sorted(rng.sample(range(nc), k)), 'drop': rng.random() < 0.6, 'how': rng.choice(['set_index_hierarchy', 'relabel_shift_in']),
+            'out': rng.choice([0, 1, k - 1, [0, k - 1], list(range(k))])}
+
+
+def _r_shift_labels(f, a):
+    # columns become index depths (whatever blocks held them), then depths go back out as columns
+    labels = [f.columns.values[i] for i in a['cols']]
+    labels = [x.item() if hasattr(x, 'item') else x for x in labels]
+    if a['how'] == 'set_index_hierarchy':
+        g = f.set_index_hierarchy(labels, drop=a['drop'])
+    else:
+        g = f.relabel_shift_in(labels, axis=0)
+    return g, g.relabel_shift_out(a['out'])
+
+
 def _d_equals(spec, rng):
     return {'cd': rng.random() < 0.5}
 
@@ -536,6 +566,8 @@ CATALOGUE = {
     'equals_self_copy': (_d_equals, lambda f, a: f.equals(pickle.loads(pickle.dumps(f)), compare_dtype=a['cd'])),
     'via_str': (_d_via_str, _r_via_str),
     'iter_window_items': (_d_window, _r_window),
+    'iter_window_array': (_d_window_array, _r_window_array),
+    'shift_labels_in_out': (_d_shift_labels, _r_shift_labels),
     'relabel_flat': (_d_none, lambda f, a: f.relabel_flat(index=True, columns=True) if f.index.depth > 1 and f.columns.depth > 1 else
                      (f.relabel_flat(index=True) if f.index.depth > 1 else (f.relabel_flat(columns=True) if f.columns.depth > 1 else f.relabel(index=str)))),
     'rename': (_d_none, lambda f, a: f.rename('renamed')),
